@@ -32,6 +32,11 @@ import (
 // X509SKI, in one or several X509Data elements), and every element tree is written in the LEXICAL FORM the
 // vector names (xmlenc_lex.go: namespace prefixes, place of the declarations, attribute order, white space
 // and comments between child elements).  The class of a case never depends on the form.
+// Round 4: EncryptionMethod with its optional children written or left out (DigestMethod, MGF, OAEPparams empty or
+// with a label, KeySize); the VALUE of a symmetric key of the right size (vector field kparts: 8-octet parts that
+// are equal / zero / all-ones / weak / semi-weak DES keys, parity, repeating patterns), as the caller's key and as
+// the payload of an EncryptedKey; what an *rsa.PrivateKey holds in Primes / Precomputed (vector field rsaparts),
+// including a three-prime key pair.  Oracle unchanged: never a panic; acceptance is left open for all of them.
 
 type c11Why struct {
 	Alg     bool `json:"alg"`
@@ -45,16 +50,18 @@ type c11Why struct {
 type c11Vec struct {
 	Model    string `json:"model"`
 	alt      []*c11Vec
-	Fam      string    `json:"fam"`
-	Via      string    `json:"via"`
-	El       xeEl      `json:"el"`
-	Key      c11KeyVal `json:"key"`
-	Lex      xeLex     `json:"lex"`
-	Class    string    `json:"class"`
-	Baseline bool      `json:"baseline"`
-	X509     []c11X509 `json:"x509"` // per level of path(): the X509Data of that level
-	Why      []c11Why  `json:"why"`
-	Pred     c10Out    `json:"pred"`
+	Fam      string       `json:"fam"`
+	Via      string       `json:"via"`
+	El       xeEl         `json:"el"`
+	Key      c11KeyVal    `json:"key"`
+	Lex      xeLex        `json:"lex"`
+	Class    string       `json:"class"`
+	Baseline bool         `json:"baseline"`
+	X509     []c11X509    `json:"x509"`               // per level of path(): the X509Data of that level
+	RsaParts *c11RsaParts `json:"rsaparts,omitempty"` // what the key value holds when it is an *rsa.PrivateKey
+	Kparts   []xeKeyPart  `json:"kparts,omitempty"`   // family keyvalue: the octets of the symmetric key "K"
+	Why      []c11Why     `json:"why"`
+	Pred     c10Out       `json:"pred"`
 }
 
 type c11Obs struct {
@@ -295,6 +302,13 @@ func c11RunSPWith(prov *saml.ServiceProvider, doc []byte) c11Obs {
 func c11Execute(v *c11Vec, rng *rand.Rand) *c11Run {
 	r := &c11Run{SP: map[string]c11Obs{}, SPXML: map[string]string{}}
 	ctx := newXeCtx(rng)
+	if len(v.Kparts) > 0 { // the symmetric key of the case has a described value
+		k := xeKeyFromParts(v.Kparts, rng)
+		if err := xeKeyPartsOK(v.Kparts, k); err != nil {
+			panic("harness: key value does not fit its description: " + err.Error())
+		}
+		ctx.set("K", k)
+	}
 	el := c11Build(ctx, v)
 	root, xmlb, err := xeRender(el, v.Lex)
 	if err != nil {
@@ -363,7 +377,13 @@ type c11Mut struct {
 }
 
 func c11KeyPool(rng *rand.Rand) (any, string) {
-	switch rng.Intn(13) {
+	switch rng.Intn(16) {
+	case 13:
+		return c11GoKey(c11KeyVal{T: "rsa", ID: "sp", Shape: "presized"}, nil), "rsa:sp:presized"
+	case 14:
+		return c11GoKey(c11KeyVal{T: "rsa", ID: "sp", Shape: "wipedentries"}, nil), "rsa:sp:wipedentries"
+	case 15:
+		return c11ShapedRSA(merlinKey(), "onenil"), "rsa:merlin:onenil"
 	case 9:
 		return c11ShapedRSA(merlinKey(), "noprimes"), "rsa:merlin:noprimes"
 	case 10:
@@ -567,7 +587,7 @@ func c11MutationRun(n int, rep *Report) []c11Mut {
 func TestC11(t *testing.T) {
 	rep := NewReport("C11")
 	defer rep.Finish(t)
-	rep.Rule = "every terminal state of spec/XmlEnc.tla family C11 (per algorithm every CipherValue length 0..IV+4 blocks+1(+tag) x final-byte representative {0,1,bs,bs+1,n-1,n,n+1,255} / GCM region modified, direct and RSA-wrapped keys incl. 8-octet 3DES keys; EncryptionMethod / CipherData / DigestMethod / nesting / repetition variants; X509Data classes described by their certificates: none, X509Data without certificate, the key's certificate, other modulus, same modulus with public exponent 3, RSA of another size, EC, not a certificate, line-wrapped / indented base64, two certificates in either order; key values by Go type and shape: []byte of eight sizes incl. nil and empty slice, nil, string, *ecdsa.PrivateKey, ed25519.PrivateKey, *rsa.PublicKey, rsa.PrivateKey value, a crypto.Signer/Decrypter around the key, *rsa.PrivateKey as parsed / without Precomputed / with N,E,D only / with a wrong D / without D / zero value / nil pointer, these crossed with the three RSA key transports x EncryptedKey alone or nested x valid, undecodable, absent, junk cipher value x certificate absent, matching, same-modulus-other-exponent; X509Data as a sequence of items: the hints X509IssuerSerial / X509SubjectName / X509SKI alone and in front of / behind / in another X509Data element than the certificate of the key, of another key, with another exponent, an EC certificate; family F6: 189 cases of every verdict class written in every enumerated lexical form - namespaces bound to the package's prefixes / other prefixes / the default namespace, declarations on the element / on every element / on the element handed to Decrypt / on an enclosing element, attributes in either order, white space and comments between child elements) is concretised with random contents and given to xmlenc.Decrypt, RSA-wrapped ones also to ServiceProvider.ParseXMLResponse inside an unsigned Response (EncryptedKey nested and as sibling; the service provider holds the sp key or, for key values that are a crypto.Signer, that key value); plus structure-aware mutations of xmlenc/corpus, crashers and testdata; oracle: no panic, MustReject => error; non-trivial = MustReject cases and baseline cases that decrypt"
+	rep.Rule = "every terminal state of spec/XmlEnc.tla family C11 (per algorithm every CipherValue length 0..IV+4 blocks+1(+tag) x final-byte representative {0,1,bs,bs+1,n-1,n,n+1,255} / GCM region modified, direct and RSA-wrapped keys incl. 8-octet 3DES keys; EncryptionMethod / CipherData / DigestMethod / nesting / repetition variants; X509Data classes described by their certificates: none, X509Data without certificate, the key's certificate, other modulus, same modulus with public exponent 3, RSA of another size, EC, not a certificate, line-wrapped / indented base64, two certificates in either order; key values by Go type and shape: []byte of eight sizes incl. nil and empty slice, nil, string, *ecdsa.PrivateKey, ed25519.PrivateKey, *rsa.PublicKey, rsa.PrivateKey value, a crypto.Signer/Decrypter around the key, *rsa.PrivateKey as parsed / without Precomputed / with N,E,D only / with a wrong D / without D / zero value / nil pointer, these crossed with the three RSA key transports x EncryptedKey alone or nested x valid, undecodable, absent, junk cipher value x certificate absent, matching, same-modulus-other-exponent; X509Data as a sequence of items: the hints X509IssuerSerial / X509SubjectName / X509SKI alone and in front of / behind / in another X509Data element than the certificate of the key, of another key, with another exponent, an EC certificate; family F6: 189 cases of every verdict class written in every enumerated lexical form (round 4: plus EncryptedKeys with KeySize and an empty OAEPparams) - namespaces bound to the package's prefixes / other prefixes / the default namespace, declarations on the element / on every element / on the element handed to Decrypt / on an enclosing element, attributes in either order, white space and comments between child elements; round 4: the optional children of EncryptionMethod written or left out (family ekopt: DigestMethod absent / SHA-1 / SHA-256 x xenc11:MGF absent / mgf1sha1 / mgf1sha256 x OAEPparams absent / empty / a label x KeySize x certificate, the key wrapped with what the element says), the value of the symmetric key (family keyvalue: for 3DES K1=K2, K2=K3, K1=K3, K1=K2=K3, all-zero, all-ones, one repeated octet, weak / semi-weak DES keys, a semi-weak pair, odd / even parity; for AES all-zero, all-ones, one repeated octet, 8- and 16-octet periods; as the caller's key and as the payload of an EncryptedKey), *rsa.PrivateKey values by what Primes / Precomputed hold (Primes nil, empty, pre-sized with nil entries, last entry nil, wrong numbers; Primes wiped as a slice or entry by entry with Precomputed kept; Precomputed.CRTValues with nil entries; a three-prime key pair whole and in these shapes) crossed like the shapes of round 2) is concretised with random contents and given to xmlenc.Decrypt, RSA-wrapped ones also to ServiceProvider.ParseXMLResponse inside an unsigned Response (EncryptedKey nested and as sibling; the service provider holds the sp key or, for key values that are a crypto.Signer, that key value); plus structure-aware mutations of xmlenc/corpus, crashers and testdata; oracle: no panic, MustReject => error; non-trivial = MustReject cases and baseline cases that decrypt"
 	lines := loadLines(t, "vectors.ndjson")
 	if len(lines) == 0 {
 		rep.Break("no vectors")
@@ -580,6 +600,17 @@ func TestC11(t *testing.T) {
 		if err := json.Unmarshal(l, v); err != nil {
 			rep.Break("bad vector: %v", err)
 			return
+		}
+		if v.Key.T == "rsa" {
+			// the harness builds *rsa.PrivateKey values by the name of their shape: its table must be the spec's
+			want, ok := c11RsaShapes[v.Key.Shape]
+			if !ok {
+				want, ok = c11RsaShapesOld[v.Key.Shape]
+			}
+			if !ok || v.RsaParts == nil || *v.RsaParts != want {
+				rep.Break("key shape %q: spec/XmlEnc.tla RsaParts says %+v, the harness builds %+v", v.Key.Shape, v.RsaParts, want)
+				return
+			}
 		}
 		if first, ok := byCase[v.id()]; ok {
 			if first.Class != v.Class {
@@ -764,10 +795,10 @@ func TestC11(t *testing.T) {
 
 func c11NamedKey(name string) any {
 	switch {
-	case name == "rsa:merlin:noprimes", name == "rsa:merlin:noprecomp":
+	case strings.HasPrefix(name, "rsa:merlin:"):
 		return c11ShapedRSA(merlinKey(), strings.TrimPrefix(name, "rsa:merlin:"))
-	case name == "rsa:sp:noprimes":
-		return c11GoKey(c11KeyVal{T: "rsa", ID: "sp", Shape: "noprimes"}, nil)
+	case strings.HasPrefix(name, "rsa:sp:"):
+		return c11GoKey(c11KeyVal{T: "rsa", ID: "sp", Shape: strings.TrimPrefix(name, "rsa:sp:")}, nil)
 	case name == "signer:sp":
 		return c11GoKey(c11KeyVal{T: "signer", ID: "sp"}, nil)
 	case name == "rsa:merlin":
